@@ -207,6 +207,32 @@ def diffuse(cl, rng, n, replay):
             return
         if j % 2 == 0 and not _same_records_again(cl, rng, raw, recs, N, dt, "diffuse"):
             return
+        if j % 3 == 1:
+            # windows of two time steps under a 'keeping' policy, a window that is *not* kept given first: the curve is that of the kept windows alone - their time
+            # step labels the FFT bins, their densities are averaged
+            other = float(rng.choice([d for d in (0.005, 0.01, 0.02) if abs(d - dt) > 1e-9]))
+            policy = "keeping_smallest_time_step" if other > dt else "keeping_majority_time_step"
+            extra_raw = [rp.gen_window(rng, N=N, dt=other)]
+            kept_raw = list(raw) + ([rp.gen_window(rng, N=N, dt=dt)] if len(raw) == 1 else [])       # the kept ones are a majority as well
+            all_raw = extra_raw + kept_raw
+            s2, n_exp2, width2, op2, b2, fcs2 = _settings("HvsrDiffuseFieldProcessingSettings", rng, N, dt, handle_dissimilar_time_steps_by=policy)
+            if op2 == "savitzky_and_golay" or s2.fft_settings == {} or (s2.fft_settings or {}).get("n", 0) is None and N % 2:
+                continue
+            try:
+                h2 = hvsrpy.process([rp.mk_record(*r) for r in all_raw], s2)
+            except Exception as ex:
+                want2, margin2 = rp.curve_diffuse(kept_raw, n_exp2, width2, op2, b2, fcs2)
+                if np.all(np.isfinite(want2)) and np.all(want2 > 0) and margin2 > 1e-7:
+                    cl.fail("hvsrpy.processing.diffuse_field_hvsr_processing", f"process raised {type(ex).__name__}: {ex} (two time steps, policy {policy})", signature="diffuse:mixed:raise")
+                    return
+                continue
+            n_used2 = s2.fft_settings["n"]
+            want2, margin2 = rp.curve_diffuse(kept_raw, n_used2, width2, op2, b2, fcs2)
+            cl.case((op2, b2, width2, N, dt, other, policy))
+            if margin2 >= 1e-7 and np.all(np.isfinite(want2)) and np.all(want2 > 0) and not close(h2.amplitude, want2, rtol=RTOL, atol=0):
+                cl.fail("hvsrpy.processing.diffuse_field_hvsr_processing", f"time steps {other} (given first, not kept) and {dt} under {policy}: the curve is not that of the kept windows "
+                        "(their time step labels the FFT bins)", signature="diffuse:mixed", observed=h2.amplitude, required=want2, operator=op2, bandwidth=b2, fcs=fcs2)
+                return
 
 
 def common_factor(cl, rng, n, replay):
